@@ -144,10 +144,15 @@ func (m *resultMap) Delete(index int) {
 	delete(m.results, index)
 }
 
-func (m *resultMap) Set(index int, result chan returnValue) {
+// SetIfAbsent registers result under index unless a pending call is already using that index.
+func (m *resultMap) SetIfAbsent(index int, result chan returnValue) bool {
 	m.Lock()
 	defer m.Unlock()
+	if _, pending := m.results[index]; pending {
+		return false
+	}
 	m.results[index] = result
+	return true
 }
 
 var (
@@ -293,7 +298,22 @@ func (c *Caller) InvokeContext(ctx context.Context, id string, name string, args
 	if args == nil {
 		args = emptyArgs
 	}
+	var results *resultMap
+	if rm, ok := c.results.Get(id); ok {
+		results = rm.(*resultMap)
+	} else {
+		results = newResultMap()
+		if !c.results.SetIfAbsent(id, results) {
+			rm, _ := c.results.Get(id)
+			results = rm.(*resultMap)
+		}
+	}
+	// register the call under a number no pending call is using, before the provider can see it
+	result := make(chan returnValue, 1)
 	index := int(atomic.AddInt32(&c.counter, 1) & 0x7fffffff)
+	for !results.SetIfAbsent(index, result) {
+		index = int(atomic.AddInt32(&c.counter, 1) & 0x7fffffff)
+	}
 	var calls *callCache
 	if cc, ok := c.calls.Get(id); ok {
 		calls = cc.(*callCache)
@@ -305,18 +325,6 @@ func (c *Caller) InvokeContext(ctx context.Context, id string, name string, args
 		}
 	}
 	calls.Append(newCall(index, name, args))
-	var results *resultMap
-	if rm, ok := c.results.Get(id); ok {
-		results = rm.(*resultMap)
-	} else {
-		results = newResultMap()
-		if !c.results.SetIfAbsent(id, results) {
-			rm, _ := c.results.Get(id)
-			results = rm.(*resultMap)
-		}
-	}
-	result := make(chan returnValue, 1)
-	results.Set(index, result)
 	c.response(id)
 	if c.Timeout > 0 {
 		ctx, cancel := context.WithTimeout(ctx, c.Timeout)
